@@ -1,4 +1,22 @@
-(* placeholder; regenerated by h11 -gen *)
+(* regenerated on every run by `h11 -gen` : sm.State constants and sm.State.X evaluated by the
+   running code on all 8x8 pairs (core/task/sm/state.go) *)
 From Verif Require Import Common.
 Open Scope N_scope.
-Definition stateX_enum : list (N * N * N) := [].
+Definition go_state_UNKNOWN : N := 0.
+Definition go_state_STANDBY : N := 1.
+Definition go_state_CONFIGURED : N := 2.
+Definition go_state_RUNNING : N := 3.
+Definition go_state_ERROR : N := 4.
+Definition go_state_DONE : N := 5.
+Definition go_state_MIXED : N := 6.
+Definition go_state_INVARIANT : N := 7.
+Definition stateX_enum : list (N * N * N) := [
+  (0, 0, 0); (0, 1, 6); (0, 2, 6); (0, 3, 6); (0, 4, 4); (0, 5, 6); (0, 6, 6); (0, 7, 0);
+  (1, 0, 6); (1, 1, 1); (1, 2, 6); (1, 3, 6); (1, 4, 4); (1, 5, 6); (1, 6, 6); (1, 7, 1);
+  (2, 0, 6); (2, 1, 6); (2, 2, 2); (2, 3, 6); (2, 4, 4); (2, 5, 6); (2, 6, 6); (2, 7, 2);
+  (3, 0, 6); (3, 1, 6); (3, 2, 6); (3, 3, 3); (3, 4, 4); (3, 5, 6); (3, 6, 6); (3, 7, 3);
+  (4, 0, 4); (4, 1, 4); (4, 2, 4); (4, 3, 4); (4, 4, 4); (4, 5, 4); (4, 6, 4); (4, 7, 4);
+  (5, 0, 6); (5, 1, 6); (5, 2, 6); (5, 3, 6); (5, 4, 4); (5, 5, 5); (5, 6, 6); (5, 7, 5);
+  (6, 0, 6); (6, 1, 6); (6, 2, 6); (6, 3, 6); (6, 4, 4); (6, 5, 6); (6, 6, 6); (6, 7, 6);
+  (7, 0, 0); (7, 1, 1); (7, 2, 2); (7, 3, 3); (7, 4, 4); (7, 5, 5); (7, 6, 6); (7, 7, 7)
+].
